@@ -229,3 +229,24 @@ def match_known(kf: Dict[str, Any], v: Violation) -> Optional[Dict[str, Any]]:
         if ok:
             return ent
     return None
+
+
+def merge_reports(dst: Report, src: Report) -> None:
+    dst.obligations.extend(src.obligations)
+    dst.functions.update(src.functions)
+    dst.violations.extend(src.violations)
+    dst.undecided.extend(src.undecided)
+    dst.broken.extend(src.broken)
+    dst.bounded_evals += src.bounded_evals
+    dst.bounded_cells += src.bounded_cells
+    dst.bounded_nontrivial |= src.bounded_nontrivial
+    for x in src.bounded_samples:
+        if len(dst.bounded_samples) < 12:
+            dst.bounded_samples.append(x)
+    for x in src.obligation_samples:
+        if len(dst.obligation_samples) < 8:
+            dst.obligation_samples.append(x)
+    dst.assume(*src.assumptions)
+    dst.trust(*src.trusted)
+    dst.notes.extend(src.notes)
+    dst.bounds.update(src.bounds)
